@@ -46,6 +46,31 @@ fn check_df<const N: usize>(s: &str) -> Result<(), (String, String)> {
     if d2 != d {
         return Err((format!("c17:descriptor<{}>:from-iter", N), "collect::<Df88591String>() differs from From<&str>".into()));
     }
+    // the other ways of reading the characters back: the iterator's own count/size_hint/nth/last, Display, a clone
+    let n = want_chars.len();
+    if d.chars().count() != n || d.chars().size_hint() != (n, Some(n)) || d.chars().last() != want_chars.last().copied() || (n > 0 && d.chars().nth(n / 2) != Some(want_chars[n / 2])) {
+        return Err((format!("c17:descriptor<{}>:chars-iterator", N), format!("Df88591String<{}>::chars(): count/size_hint/nth/last disagree with the {} stored characters", N, n)));
+    }
+    let shown = format!("{}", d);
+    let want_str: String = want_chars.iter().collect();
+    if !shown.contains(&want_str) {
+        return Err((format!("c17:descriptor<{}>:display", N), format!("Display of Df88591String<{}> does not contain the stored characters", N)));
+    }
+    let c = d.clone();
+    if c != d || c.iter().copied().collect::<Vec<u8>>() != want {
+        return Err((format!("c17:descriptor<{}>:clone", N), "a clone differs from the original".into()));
+    }
+    // character by character through try_push: Ok for the first N, then Err with the content unchanged
+    let mut t = Df88591String::<N>::new();
+    for (i, ch) in s.chars().enumerate().take(N + 3) {
+        let r = t.try_push(ch);
+        if r.is_ok() != (i < N) || t.len() != (i + 1).min(N) {
+            return Err((format!("c17:descriptor<{}>:try-push", N), format!("try_push of character {} returned {:?} with {} stored (capacity {})", i, r, t.len(), N)));
+        }
+    }
+    if t.iter().copied().collect::<Vec<u8>>() != ref_latin1(s, N.min(s.chars().count().min(N + 3))) {
+        return Err((format!("c17:descriptor<{}>:try-push", N), "characters pushed one by one are stored differently from From<&str>".into()));
+    }
     Ok(())
 }
 fn check_as<const N: usize>(s: &str) -> Result<(), (String, String)> {
@@ -65,6 +90,28 @@ fn check_as<const N: usize>(s: &str) -> Result<(), (String, String)> {
     let a2: ArrayString<N> = s.chars().collect();
     if a2 != a {
         return Err((format!("c17:text<{}>:from-iter", N), "collect::<ArrayString>() differs from From<&str>".into()));
+    }
+    // the other ways of reading it back: AsRef<str>, Display, a clone; and character by character through try_push
+    let asref: &str = a.as_ref();
+    if asref != want || !format!("{}", a).contains(want) || a.clone() != a {
+        return Err((format!("c17:text<{}>:read-back", N), format!("ArrayString<{}>: as_ref / Display / clone disagree with the kept prefix", N)));
+    }
+    let mut t = ArrayString::<N>::new();
+    let mut used = 0usize;
+    for ch in s.chars() {
+        let fits = used + ch.len_utf8() <= N;
+        let r = t.try_push(ch);
+        if r.is_ok() != fits {
+            return Err((format!("c17:text<{}>:try-push", N), format!("try_push of {:?} with {} of {} bytes used returned {:?}", ch, used, N, r)));
+        }
+        if !fits {
+            break;
+        }
+        used += ch.len_utf8();
+    }
+    let tr = catch(|| (&*t).to_string()).map_err(|p| (format!("c17:text<{}>:invalid-utf8", N), format!("try_push produced bytes that are not valid UTF-8: {}", p)))?;
+    if tr != want {
+        return Err((format!("c17:text<{}>:try-push", N), "characters pushed one by one give a different text from From<&str>".into()));
     }
     Ok(())
 }
